@@ -149,3 +149,27 @@ def run(prog, chk):
     gets = [unparse(c.func) for c in walk_no_defs(ck.node) if isinstance(c, ast.Call) and isinstance(c.func, ast.Attribute)
             and unparse(c.func.value) == "msg" and c.func.attr.startswith("get_")]
     chk.ob("R7.reply-reader", "SFTPFile.check", gets == ["msg.get_text", "msg.get_text", "msg.get_remainder"], ck.loc, "client reads %s" % gets)
+    # R8: the handle's cached file position (cursor agreement for SFTPHandle.read/write) -----------------
+    for mn, fobj in (("read", "readfile"), ("write", "writefile")):
+        f = prog.func("SFTPHandle." + mn)
+        fh = Flow(prog, f, implicit=True)
+        offp = f.params()[1]
+        seeks = [n for (n, c) in fh.nodes_with_call(name=fobj + ".seek") if unparse(c.args[0]) == offp]
+        setp = fh.nodes(lambda n: n.kind == "stmt" and isinstance(n.ast, ast.Assign) and unparse(n.ast.targets[0]) == "self.__tell"
+                        and unparse(n.ast.value) == offp)
+        io = [n for (n, c) in fh.nodes_with_call(name="%s.%s" % (fobj, mn))]
+        ok = len(seeks) == 1 and len(setp) == 1 and len(io) == 1
+        if ok:
+            g = fh.edge_guard(lambda t: unparse(t) in ("%s != self.__tell" % offp, "self.__tell != %s" % offp), "T")
+            ok = fh.dominated(seeks, guard_edge=g)
+            # after a seek, the cached position is updated before the transfer
+            s_succ = [d for (d, l) in fh.cfg.succ[seeks[0].id] if l != "exc"]
+            ok = ok and fh.cfg.dominated([io[0].id], guard_nodes=[setp[0].id], start=s_succ)
+            adv = fh.nodes(lambda n: n.kind == "stmt" and isinstance(n.ast, ast.AugAssign) and unparse(n.ast.target) == "self.__tell"
+                           and isinstance(n.ast.op, ast.Add) and unparse(n.ast.value) == "len(data)")
+            ok = ok and len(adv) == 1
+            rst = fh.nodes(lambda n: n.kind == "stmt" and isinstance(n.ast, ast.Assign) and unparse(n.ast.targets[0]) == "self.__tell"
+                           and unparse(n.ast.value) == "None")
+            ok = ok and len(rst) == 1
+        chk.ob("R8.cached-position-tracks-the-file", "SFTPHandle." + mn, ok, f.loc,
+               "seek only when offset != cached position, cache := offset after the seek, += len(data) after the transfer, reset on error")
